@@ -212,6 +212,9 @@ def run(ctx):
                 samples.append({'file_pattern': fp, 'exclude_pattern': ep, 'flags': f})
     ctx.corr('WcMatch walker', corr.merge(results))
     ctx.counted('WcMatch vs independent filtered walk', evals, len(nontriv), samples)
+    from props import fringe
+    fringe.case_twin_tree(ctx, 'wcmatch')
+    fringe.newline_wcmatch(ctx)
     return ctx.finish(RULE)
 
 
